@@ -341,7 +341,7 @@ finish_recv_packet = Spec(
     exc_attrs={'ProtocolError': lambda args, kw: {'code': VInt(2), 'reason': args[0], 'lang': VStr('en-US')}},
     # (includes everything the re-entered pump _recv_data may write on the asynchronous call)
     modifies=['_auth_final', '_recv_seq', '_recv_handler', '_inpbuf', '_transport', '_send_seq', '_recv_blocksize',
-              '_recv_macsize', '_packet', '_pktlen', '_banner_lines'],
+              '_recv_macsize', '_packet', '_pktlen', '_banner_lines', '_keepalive_timer'],
     ensures=[('handler-rearmed-or-pump-ran', lambda c: z3.Or(
         is_async(c), c.eq(c.newv('_recv_handler'), VTag('method:SSHConnection._recv_pkthdr')))),
              # fix c66417b: as a task done-callback the rollover error cannot be raised to anybody, so the
@@ -357,6 +357,10 @@ finish_recv_packet = Spec(
                               c.old('_recv_macsize') >= 0, c.old('_banner_lines') >= 0),
     always=[('buffer-untouched-when-synchronous', lambda c: z3.Or(is_async(c),
                                                                   c.new('_inpbuf') == c.old('_inpbuf'))),
+            # (only the re-entered pump of the asynchronous call may touch the pump's own fields)
+            ('pump-fields-untouched-when-synchronous', lambda c: z3.Or(is_async(c), z3.And(
+                [c.eq(c.newv(f), c.oldv(f)) for f in ('_recv_blocksize', '_recv_macsize', '_packet', '_pktlen',
+                                                      '_banner_lines')]))),
             ('seq-stays-uint32', lambda c: z3.Or(is_async(c), z3.And(c.new('_recv_seq') >= 0,
                                                                      c.new('_recv_seq') < 2 ** 32)))],
     # called synchronously from _recv_packet the rollover error is funnelled by _recv_data; as a task done-callback
@@ -528,7 +532,7 @@ recv_data = Spec(
                        # at most 2*len(_inpbuf)+1 iterations per chunk
                        variant=lambda c: measure(c, True))},
     modifies=['_inpbuf', '_recv_handler', '_transport', '_send_seq', '_recv_blocksize', '_recv_macsize',
-              '_recv_seq', '_packet', '_pktlen', '_banner_lines'],
+              '_recv_seq', '_packet', '_pktlen', '_banner_lines', '_keepalive_timer'],
     requires=lambda c: pump_inv(c, new=False),
     ensures=[('normal-exit-without-error-leaves-connection-alone', lambda c: z3.BoolVal(True))],
     always=[('error-means-closed',
